@@ -603,6 +603,22 @@ impl PortAllocator {
     }
 }
 
+#[cfg(feature = "verif-hooks")]
+impl SocketTable {
+    /// Current cursor of the ephemeral port allocator (verification harness only).
+    pub fn verif_port_cursor(&self) -> u16 {
+        self.ports.cursor
+    }
+
+    /// Move the ephemeral port allocator's cursor (verification harness only;
+    /// lets a script reach wrap-around without 16k binds). Panics if `cursor`
+    /// is outside the allocator's range.
+    pub fn verif_set_port_cursor(&mut self, cursor: u16) {
+        assert!(self.ports.range.contains(&cursor), "cursor outside the ephemeral range");
+        self.ports.cursor = cursor;
+    }
+}
+
 #[cfg(test)]
 mod tests {
     use super::*;
